@@ -116,113 +116,7 @@ func runC13(c *Ctx, r *Report) {
 		r.floor("whole-chunk copies in Snapshot", n, 2)
 	}
 
-	// ---------------- R3 ----------------
-	r.rule("C13-R3", "A (dominance)", "P1",
-		"in Matcher.scan every return reachable from a `go` statement is dominated by a call that waits on the workers' WaitGroup or by the header of the loop that receives one result per spawned worker; every worker defers WaitGroup.Done",
-		"a superseded scan returns while its workers still run on the slabs (next scan reuses them), or Wait hangs")
-	scan := l.Fn("fzf", "(*Matcher).scan")
-	if scan == nil {
-		r.unest("anchors", token.NoPos, nil, "anchor Matcher.scan", "cannot resolve")
-	} else {
-		var gos []*ssa.Go
-		eachInstr(scan, func(in ssa.Instruction) {
-			if g, ok := in.(*ssa.Go); ok {
-				gos = append(gos, g)
-			}
-		})
-		r.floor("go statements in scan", len(gos), 1)
-		containsWait := func(f *ssa.Function) bool {
-			found := false
-			for _, g := range withClosures(f) {
-				eachInstr(g, func(in ssa.Instruction) {
-					if _, ok := isCall(in, "(*sync.WaitGroup).Wait"); ok {
-						found = true
-					}
-				})
-			}
-			return found
-		}
-		// loop bound of a block's loop header: `i < len(X)` -> X
-		loopRangeOf := func(b *ssa.BasicBlock) (ssa.Value, *ssa.BasicBlock) {
-			// find a header h that dominates b, with If cond LSS(_, len(X)), and b in the loop (h reachable from b)
-			for h := b; h != nil; h = h.Idom() {
-				ifi, ok := h.Instrs[len(h.Instrs)-1].(*ssa.If)
-				if !ok {
-					continue
-				}
-				bo, ok := ifi.Cond.(*ssa.BinOp)
-				if !ok || bo.Op != token.LSS {
-					continue
-				}
-				call, ok := bo.Y.(*ssa.Call)
-				if !ok || calleeName(call.Common()) != "builtin.len" {
-					continue
-				}
-				if h != b && !reachFrom(b)[h] {
-					continue
-				}
-				return call.Call.Args[0], h
-			}
-			return nil, nil
-		}
-		for _, g := range gos {
-			spawnX, _ := loopRangeOf(g.Block())
-			// worker signals Done
-			ws, _ := resolveFuncs(g.Call.Value)
-			for _, w := range ws {
-				done := false
-				eachInstr(w, func(in ssa.Instruction) {
-					d, ok := in.(*ssa.Defer)
-					if !ok {
-						return
-					}
-					fs, _ := calleesOf(d.Common())
-					for _, df := range fs {
-						eachInstr(df, func(i2 ssa.Instruction) {
-							if _, ok := isCall(i2, "(*sync.WaitGroup).Done"); ok {
-								done = true
-							}
-						})
-					}
-					if _, ok := isCall(in, "(*sync.WaitGroup).Done"); ok {
-						done = true
-					}
-				})
-				r.check(done, relName(w)+":defer Done", w.Pos(), w, "worker goroutine defers WaitGroup.Done()", "a worker can exit without signalling: wait() hangs")
-			}
-			for _, b := range scan.Blocks {
-				ret, ok := b.Instrs[len(b.Instrs)-1].(*ssa.Return)
-				if !ok || !canReach(g, ret) {
-					continue
-				}
-				okDom := false
-				how := ""
-				eachInstr(scan, func(in ssa.Instruction) {
-					ci, isCall := in.(ssa.CallInstruction)
-					if isCall && dominates(in, ret) {
-						if fs, ok := calleesOf(ci.Common()); ok {
-							for _, f := range fs {
-								if f.Parent() != nil && rootFn(f) == scan && containsWait(f) {
-									okDom, how = true, "WaitGroup.Wait()"
-								}
-							}
-						}
-					}
-					// receive loop
-					if u, isRecv := in.(*ssa.UnOp); isRecv && u.Op == token.ARROW {
-						x, h := loopRangeOf(in.Block())
-						if x != nil && x == spawnX && h != nil && h.Dominates(b) && h != g.Block() {
-							if lx, lh := loopRangeOf(g.Block()); lx == x && lh != h {
-								okDom, how = true, "the loop receiving one result per spawned worker"
-							}
-						}
-					}
-				})
-				r.check(okDom, fmt.Sprintf("%s:return after spawn (%s)", relName(scan), retShape(ret)), ret.Pos(), scan,
-					"return after the workers were spawned is dominated by "+how, "returns while workers may still be running")
-			}
-		}
-	}
+	c13r3(c, r)
 
 	// ---------------- R4 ----------------
 	r.rule("C13-R4", "B", "P1",
@@ -723,4 +617,117 @@ func freshIn(v ssa.Value, f *ssa.Function, d int) bool {
 		return true
 	}
 	return false
+}
+
+// c13r3: every return of scan after the spawn joins the workers (shared with C02 and C05: a leftover worker shares its slab with the next scan).
+func c13r3(c *Ctx, r *Report) {
+	l := c.L
+	// ---------------- R3 ----------------
+	r.rule("C13-R3", "A (dominance)", "P1",
+		"in Matcher.scan every return reachable from a `go` statement is dominated by a call that waits on the workers' WaitGroup or by the header of the loop that receives one result per spawned worker; every worker defers WaitGroup.Done",
+		"a superseded scan returns while its workers still run on the slabs (next scan reuses them), or Wait hangs")
+	scan := l.Fn("fzf", "(*Matcher).scan")
+	if scan == nil {
+		r.unest("anchors", token.NoPos, nil, "anchor Matcher.scan", "cannot resolve")
+	} else {
+		var gos []*ssa.Go
+		eachInstr(scan, func(in ssa.Instruction) {
+			if g, ok := in.(*ssa.Go); ok {
+				gos = append(gos, g)
+			}
+		})
+		r.floor("go statements in scan", len(gos), 1)
+		containsWait := func(f *ssa.Function) bool {
+			found := false
+			for _, g := range withClosures(f) {
+				eachInstr(g, func(in ssa.Instruction) {
+					if _, ok := isCall(in, "(*sync.WaitGroup).Wait"); ok {
+						found = true
+					}
+				})
+			}
+			return found
+		}
+		// loop bound of a block's loop header: `i < len(X)` -> X
+		loopRangeOf := func(b *ssa.BasicBlock) (ssa.Value, *ssa.BasicBlock) {
+			// find a header h that dominates b, with If cond LSS(_, len(X)), and b in the loop (h reachable from b)
+			for h := b; h != nil; h = h.Idom() {
+				ifi, ok := h.Instrs[len(h.Instrs)-1].(*ssa.If)
+				if !ok {
+					continue
+				}
+				bo, ok := ifi.Cond.(*ssa.BinOp)
+				if !ok || bo.Op != token.LSS {
+					continue
+				}
+				call, ok := bo.Y.(*ssa.Call)
+				if !ok || calleeName(call.Common()) != "builtin.len" {
+					continue
+				}
+				if h != b && !reachFrom(b)[h] {
+					continue
+				}
+				return call.Call.Args[0], h
+			}
+			return nil, nil
+		}
+		for _, g := range gos {
+			spawnX, _ := loopRangeOf(g.Block())
+			// worker signals Done
+			ws, _ := resolveFuncs(g.Call.Value)
+			for _, w := range ws {
+				done := false
+				eachInstr(w, func(in ssa.Instruction) {
+					d, ok := in.(*ssa.Defer)
+					if !ok {
+						return
+					}
+					fs, _ := calleesOf(d.Common())
+					for _, df := range fs {
+						eachInstr(df, func(i2 ssa.Instruction) {
+							if _, ok := isCall(i2, "(*sync.WaitGroup).Done"); ok {
+								done = true
+							}
+						})
+					}
+					if _, ok := isCall(in, "(*sync.WaitGroup).Done"); ok {
+						done = true
+					}
+				})
+				r.check(done, relName(w)+":defer Done", w.Pos(), w, "worker goroutine defers WaitGroup.Done()", "a worker can exit without signalling: wait() hangs")
+			}
+			for _, b := range scan.Blocks {
+				ret, ok := b.Instrs[len(b.Instrs)-1].(*ssa.Return)
+				if !ok || !canReach(g, ret) {
+					continue
+				}
+				okDom := false
+				how := ""
+				eachInstr(scan, func(in ssa.Instruction) {
+					ci, isCall := in.(ssa.CallInstruction)
+					if isCall && dominates(in, ret) {
+						if fs, ok := calleesOf(ci.Common()); ok {
+							for _, f := range fs {
+								if f.Parent() != nil && rootFn(f) == scan && containsWait(f) {
+									okDom, how = true, "WaitGroup.Wait()"
+								}
+							}
+						}
+					}
+					// receive loop
+					if u, isRecv := in.(*ssa.UnOp); isRecv && u.Op == token.ARROW {
+						x, h := loopRangeOf(in.Block())
+						if x != nil && x == spawnX && h != nil && h.Dominates(b) && h != g.Block() {
+							if lx, lh := loopRangeOf(g.Block()); lx == x && lh != h {
+								okDom, how = true, "the loop receiving one result per spawned worker"
+							}
+						}
+					}
+				})
+				r.check(okDom, fmt.Sprintf("%s:return after spawn (%s)", relName(scan), retShape(ret)), ret.Pos(), scan,
+					"return after the workers were spawned is dominated by "+how, "returns while workers may still be running")
+			}
+		}
+	}
+
 }
